@@ -148,7 +148,7 @@ func TestSim(t *testing.T) {
 		}
 		res := simrt.Run(guarded, e.Cfg, stape)
 		out := &RunResult{Prop: e.Prop, Seed: e.Seed, Steps: res.Steps, Switches: res.Switches, SimMs: res.SimTime.Milliseconds(),
-			LogHash: fmt.Sprintf("%016x", res.LogHash), ILSig: fmt.Sprintf("%016x", res.ILSig), Strategy: res.Strategy,
+			LogHash: fmt.Sprintf("%016x", res.LogHash), ILSig: fmt.Sprintf("%016x-%016x", res.ILSig, tapeHash(e.W.Rec)), Strategy: res.Strategy,
 			Oblig: e.Oblig, Nontrivial: e.Nontrivial, Probes: e.Probes, Faults: e.Faults, Sample: e.Sample,
 			WLen: e.W.Pos(), SLen: stape.Pos(), GOMAXPROCS: simrt.GOMAXPROCS(0), Known: e.known, MaxTasks: res.MaxTasks}
 		for k, v := range e.Net.Stats {
